@@ -196,8 +196,8 @@ class CholLinearOperator(RootLinearOperator):
         if is_vector:
             right_tensor = right_tensor.unsqueeze(-1)
         res = self.root._cholesky_solve(right_tensor, upper=self.upper)
-        if is_vector:
-            res = res.squeeze(-1)
         if left_tensor is not None:
             res = left_tensor @ res
+        if is_vector:
+            res = res.squeeze(-1)
         return res
